@@ -13,7 +13,9 @@ MODULES = ['Httoop.Props.C11']
 THEOREMS = [
 	'Httoop.Uri.normalize_path_rfc',
 	'Httoop.Uri.abspath_eq_rfc',
-	'Httoop.Uri.abspath_outOf',
+	'Httoop.Uri.abspathCore_outOf',
+	'Httoop.Uri.abspathCore_eq_rfc',
+	'Httoop.Uri.abspath_rooted',
 	'Httoop.Rfc3986.rdsLoop_segs',
 	'Httoop.Uri.abspath_normal',
 	'Httoop.Uri.abspath_fixed',
@@ -78,7 +80,7 @@ def search(rng, res):
 
 def gen_uri(rng):
 	scheme = rng.choice([u'http', u'HTTP', u'https', u'Https', u'ftp', u'x-y', u'FOO', u'svn+ssh'])
-	host = rng.choice([u'example.com', u'EXAMPLE.com', u'a', u'A.b.C', u'127.0.0.1', u'h-1.x'])
+	host = rng.choice([u'example.com', u'EXAMPLE.com', u'a', u'A.b.C', u'127.0.0.1', u'h-1.x', u'[v1.FE:DC]', u'[v1.fe:dc]', u'[::1]', u'[2001:DB8::A]', u'[vF.X-y]'])
 	port = rng.choice([u'', u'', u':', u':80', u':443', u':8080', u':21', u':22'])
 	path = u''.join(u'/' + rng.choice(SEGS + [u'c', u'%7Ex', u'%7ex']) for _ in range(rng.randrange(0, 6)))
 	q = rng.choice([u'', u'', u'?a=1', u'?a=1&b=%20', u'?x'])
@@ -104,7 +106,7 @@ def variant(rng, a):
 		except Exception:
 			return a
 	if r == 7:
-		return a.replace(u'example.com', u'Example.COM').replace(u'://a', u'://A')
+		return a.replace(u'example.com', u'Example.COM').replace(u'://a', u'://A').replace(u'[v1.FE:DC]', u'[v1.fe:dc]').replace(u'[2001:DB8::A]', u'[2001:db8::a]')
 	if r == 0:
 		return a.replace(u'example', u'EXAMPLE').replace(u'http', u'HTTP')
 	if r == 1:
